@@ -677,6 +677,7 @@ package allocator
 // the comparator as written in the code (it answers true for two pools without priority; sort.Slice tolerates that
 // only on a strict weak order, so the contract states the relation the result is sorted by: PrioBefore)
 //@ func sortPools$1
+//@   params i, j
 //@   requires 0 <= i && i < len(pools) && 0 <= j && j < len(pools) && pools[i] != nil && pools[j] != nil
 //@       && pools[i].ServiceAllocations != nil && pools[j].ServiceAllocations != nil
 //@       && pools[i].ServiceAllocations.Priority >= 0 && pools[j].ServiceAllocations.Priority >= 0
